@@ -238,20 +238,17 @@ func c02Check(c C02Case) (r evid.Result) {
 			lo, hi = c.Params.Start-c.OffsetNs-c.RangeNs, c.Params.End-c.OffsetNs
 		}
 		wantSince, wantUntil := lo/1e9, hi/1e9
-		if c.Metric {
-			// The requested window must cover [start-o-r, end-o] truncated to seconds.
-			if since > wantSince || until < wantUntil {
-				r.Violation = evid.Viol("C02/window-too-narrow", "query %s over [%d, %d]: asked since=%d until=%d, need since<=%d until>=%d", query, c.Params.Start, c.Params.End, since, until, wantSince, wantUntil)
-				return r
-			}
-			// ... and not be shifted: it still has to start before it ends and stay within a
-			// minute of the needed interval (the instant-query lookback is 30s).
-			if since < wantSince-61 || until > wantUntil+61 {
-				r.Violation = evid.Viol("C02/window-shifted", "query %s over [%d, %d]: asked since=%d until=%d, need about since=%d until=%d", query, c.Params.Start, c.Params.End, since, until, wantSince, wantUntil)
-				return r
-			}
-		} else if since != wantSince || until != wantUntil {
-			r.Violation = evid.Viol("C02/window", "query %s over [%d, %d]: asked since=%d until=%d, want since=%d until=%d", query, c.Params.Start, c.Params.End, since, until, wantSince, wantUntil)
+		// The requested window must cover the needed interval truncated to seconds (never be
+		// narrower) ...
+		if since > wantSince || until < wantUntil {
+			r.Violation = evid.Viol("C02/window-too-narrow", "query %s over [%d, %d]: asked since=%d until=%d, need since<=%d until>=%d", query, c.Params.Start, c.Params.End, since, until, wantSince, wantUntil)
+			return r
+		}
+		// ... and not be shifted or blown up: it stays within a minute of the needed interval
+		// (the instant-query lookback is 30s; asking for a second more on either side to be on
+		// the safe side is not a defect).
+		if since < wantSince-61 || until > wantUntil+61 {
+			r.Violation = evid.Viol("C02/window-shifted", "query %s over [%d, %d]: asked since=%d until=%d, need about since=%d until=%d", query, c.Params.Start, c.Params.End, since, until, wantSince, wantUntil)
 			return r
 		}
 	}
